@@ -208,3 +208,10 @@ Fixpoint mismatches_from (i : nat) (cs : list kcase) : list nat :=
   | k :: t => if agree k then mismatches_from (S i) t else i :: mismatches_from (S i) t
   end.
 Definition mismatches (cs : list kcase) : list nat := mismatches_from 0 cs.
+
+(* the same cases against the as-found (false) / repaired (true) discovery of partitions *)
+Definition with_fix (fx : bool) (k : kcase) : kcase :=
+  {| k_cfg := {| c_maxb := c_maxb (k_cfg k); c_latest := c_latest (k_cfg k); c_np := c_np (k_cfg k);
+                 c_refresh := c_refresh (k_cfg k); c_low := c_low (k_cfg k); c_fix := fx |};
+     k_pre := k_pre k; k_steps := k_steps k; k_observed := k_observed k |}.
+Definition mismatches_fix (fx : bool) (cs : list kcase) : list nat := mismatches (map (with_fix fx) cs).
